@@ -1,6 +1,7 @@
 package run
 
 import (
+	"encoding/json"
 	"fmt"
 	"os"
 	"runtime"
@@ -68,6 +69,16 @@ type watched struct {
 	c     *Collector
 	check string
 	calls []Call
+	kind  string          // replay kind to record instead of "terminates" / "bounded"
+	extra json.RawMessage // replay extra
+}
+
+// WatchAs is Watch for cases whose calls are symbolic (an enumeration family,
+// a construct and a depth): a trip of the watchdog is then recorded as a
+// replay of the given custom kind, which re-runs the real thing.
+func WatchAs(c *Collector, check, kind string, extra json.RawMessage, calls ...Call) {
+	wdOnce.Do(startWatchdog)
+	currentCase.Store(&watched{c: c, check: check, calls: calls, kind: kind, extra: extra})
 }
 
 // Watch declares the case whose calls are about to run (for the watchdog).
@@ -156,6 +167,9 @@ func startWatchdog() {
 			}
 			r := Replay{Check: w.check, Kind: "terminates", Calls: w.calls,
 				Message: fmt.Sprintf("library call did not return within %s of CPU time", HangLimit)}
+			if w.kind != "" {
+				r.Kind, r.Extra = w.kind, w.extra
+			}
 			w.c.hang(r)
 			fmt.Printf("VIOLATION %s/%s: %s\n  calls: %s\n", w.c.Property, w.check, r.Message, callsText(r.Calls))
 			FlushAll()
@@ -198,6 +212,9 @@ func init() {
 			}
 			r := Replay{Check: w.check, Kind: "bounded", Calls: w.calls,
 				Message: fmt.Sprintf("the heap grew by %d MiB while one library call was running", (ms.HeapAlloc-base)>>20)}
+			if w.kind != "" {
+				r.Kind, r.Extra = w.kind, w.extra
+			}
 			w.c.hang(r)
 			fmt.Printf("VIOLATION %s/%s: %s\n  calls: %s\n", w.c.Property, w.check, r.Message, callsText(r.Calls))
 			FlushAll()
